@@ -55,6 +55,7 @@ def substA (x : String) (v : Ast) : Ast → Ast
   | .call g a => .call (substA x v g) (substA x v a)
   | .neg e => .neg (substA x v e)
   | .dot e n => .dot (substA x v e) n
+  | .un op e => .un op (substA x v e)
   | .bin op a b => .bin op (substA x v a) (substA x v b)
   | .and_ a b => .and_ (substA x v a) (substA x v b)
   | .or_ a b => .or_ (substA x v a) (substA x v b)
@@ -300,6 +301,7 @@ inductive AR : K → Sub → Ast → Ast → Prop
   | call {σ f f' a a'} : AR .expr σ f f' → AR .expr σ a a' → AR .expr σ (.call f a) (.call f' a')
   | neg {σ a a'} : AR .expr σ a a' → AR .expr σ (.neg a) (.neg a')
   | dot {σ a a'} (n : String) : AR .expr σ a a' → AR .expr σ (.dot a n) (.dot a' n)
+  | un {σ a a'} (op : UnOp) : AR .expr σ a a' → AR .expr σ (.un op a) (.un op a')
   | bin {σ a a' b b'} (op) : AR .expr σ a a' → AR .expr σ b b' → AR .expr σ (.bin op a b) (.bin op a' b')
   | and_ {σ a a' b b'} : AR .expr σ a a' → AR .expr σ b b' → AR .expr σ (.and_ a b) (.and_ a' b')
   | or_ {σ a a' b b'} : AR .expr σ a a' → AR .expr σ b b' → AR .expr σ (.or_ a b) (.or_ a' b')
@@ -363,6 +365,7 @@ theorem compile_rel {k : K} {σ : Sub} {a a' : Ast} (h : AR k σ a a') (fo : Boo
   | call _ _ ihf iha => exact ER.bin .call ihf iha
   | neg _ ih => exact ER.neg ih
   | dot n _ ih => exact ER.dot n ih
+  | un op _ ih => exact ER.un op ih
   | bin op _ _ iha ihb => exact ER.bin op iha ihb
   | and_ _ _ iha ihb => exact ER.and_ iha ihb
   | or_ _ _ iha ihb => exact ER.or_ iha ihb
@@ -443,6 +446,7 @@ theorem AR.refl (a : Ast) :
   | call f a ihf iha => exact ⟨AR.call ihf.1 iha.1, AR.junkI rfl rfl, AR.endC rfl rfl, by simp [stripA]⟩
   | neg e ih => exact ⟨AR.neg ih.1, AR.junkI rfl rfl, AR.endC rfl rfl, by simp [stripA]⟩
   | dot e n ih => exact ⟨AR.dot n ih.1, AR.junkI rfl rfl, AR.endC rfl rfl, by simp [stripA]⟩
+  | un op e ih => exact ⟨AR.un op ih.1, AR.junkI rfl rfl, AR.endC rfl rfl, by simp [stripA]⟩
   | bin op a b iha ihb => exact ⟨AR.bin op iha.1 ihb.1, AR.junkI rfl rfl, AR.endC rfl rfl, by simp [stripA]⟩
   | and_ a b iha ihb => exact ⟨AR.and_ iha.1 ihb.1, AR.junkI rfl rfl, AR.endC rfl rfl, by simp [stripA]⟩
   | or_ a b iha ihb => exact ⟨AR.or_ iha.1 ihb.1, AR.junkI rfl rfl, AR.endC rfl rfl, by simp [stripA]⟩
@@ -564,6 +568,7 @@ theorem substA_rel (x : String) {lv : Ast} {v : V} (hl : leafLit lv = some v) (h
   | call f a ihf iha => exact ⟨AR.call ihf.1 iha.1, AR.junkI rfl rfl, AR.endC rfl rfl, by simp [stripA]⟩
   | neg e ih => exact ⟨AR.neg ih.1, AR.junkI rfl rfl, AR.endC rfl rfl, by simp [stripA]⟩
   | dot e n ih => exact ⟨AR.dot n ih.1, AR.junkI rfl rfl, AR.endC rfl rfl, by simp [stripA]⟩
+  | un op e ih => exact ⟨AR.un op ih.1, AR.junkI rfl rfl, AR.endC rfl rfl, by simp [stripA]⟩
   | bin op a b iha ihb => exact ⟨AR.bin op iha.1 ihb.1, AR.junkI rfl rfl, AR.endC rfl rfl, by simp [stripA]⟩
   | and_ a b iha ihb => exact ⟨AR.and_ iha.1 ihb.1, AR.junkI rfl rfl, AR.endC rfl rfl, by simp [stripA]⟩
   | or_ a b iha ihb => exact ⟨AR.or_ iha.1 ihb.1, AR.junkI rfl rfl, AR.endC rfl rfl, by simp [stripA]⟩
